@@ -219,6 +219,10 @@ func (self *BinaryConv) unmarshalSingular(ctx context.Context, resp http.Respons
 		message := (*fd).Message()
 		comma := false
 		start := p.Read
+		// nothing inside the message may be read past its end: the walkers of repeated and map
+		// fields stop at the end of the buffer (restored below; an error aborts the conversion)
+		full := p.Buf
+		p.Buf = full[:start+l]
 
 		*out = json.EncodeObjectBegin(*out)
 
@@ -254,6 +258,7 @@ func (self *BinaryConv) unmarshalSingular(ctx context.Context, resp http.Respons
 				return unwrapError(fmt.Sprintf("converting field %s of MESSAGE %s failed", fd.Name(), fd.Kind()), err)
 			}
 		}
+		p.Buf = full
 		*out = json.EncodeObjectEnd(*out)
 	default:
 		return wrapError(meta.ErrUnsupportedType, fmt.Sprintf("unknown descriptor type %s", fd.Type()), nil)
